@@ -174,6 +174,7 @@ pub fn qlit(n: u128, d: u128) -> (r: Q)
 { unimplemented!() }
 
 pub uninterp spec fn q_big() -> real;
+pub uninterp spec fn q_trunc(a: real) -> real;
 
 impl Q {
     #[verifier::external_body] pub fn abs(self) -> (r: Q) ensures r@ == rabs(self@) { unimplemented!() }
@@ -185,6 +186,8 @@ impl Q {
         ensures n == 2 ==> r@ == self@ * self@, n == 1 ==> r@ == self@ { unimplemented!() }
     #[verifier::external_body] pub fn sqrt(self) -> (r: Q)
         ensures self@ >= 0real ==> (r@ >= 0real && r@ * r@ == self@) { unimplemented!() }
+    // f64::trunc: an uninterpreted function of the real value (nothing about rounding is assumed)
+    #[verifier::external_body] pub fn trunc(self) -> (r: Q) ensures r@ == q_trunc(self@) { unimplemented!() }
     #[verifier::external_body] pub fn is_sign_positive(self) -> (r: bool) ensures r == (self@ >= 0real) { unimplemented!() }
     // R-NAN: reals are never NaN / infinite
     #[verifier::external_body] pub fn is_nan(self) -> (r: bool) ensures !r { unimplemented!() }
